@@ -8,5 +8,6 @@ INVARIANT Complete
 INVARIANT Binding
 INVARIANT CaughtByDecommit
 INVARIANT LastLenExact
+INVARIANT LastZeroOnlyByCoincidence
 INVARIANT EmitReplay
 CHECK_DEADLOCK FALSE
